@@ -18,6 +18,24 @@ package pstore
 // Updates are made the way the engine makes them: on objects obtained from Vault.Read (they carry the plan id and, for
 // cosmos, the ETag), with only state fields changed.
 
+//
+// Rare class "attempt strings with invalid UTF-8" (about 3 % of the updates of actions): one string of one attempt (the
+// message of the error at depth 0/1/2 of the Wrapped chain, or a string field of the typed response) holds bytes that are
+// not valid UTF-8. A vault may not be able to store such a string, and the statement says nothing about a write that was
+// refused, so the update has a two-outcome oracle:
+//   - UpdateAction returns an error: the write did not happen (label invalid_utf8_update:refused). The model is NOT
+//     updated: the action keeps the state that was last written and the plan stays judged on every later read. This is
+//     sound because an Update* that returned an error wrote nothing "last": what was last written is still the previous
+//     state, and it was checked on the unchanged tree that it holds on every arm: sqlite (updater_actions.go) and cosmosdb
+//     (updater_actions.go) both call encodeAttempts BEFORE they touch the connection / build the patch request, and
+//     encodeAttempts is where go-json-experiment rejects the string, so nothing reaches the storage (all three arms stay
+//     silent over the quick tier at several seeds with this reading). The object tree retained from the earlier Read
+//     was mutated for the call and is dropped (the next update starts from a fresh Read), so no later call can carry the
+//     refused bytes.
+//   - UpdateAction returns nil: it was written (label invalid_utf8_update:stored). The model takes EXACTLY the bytes
+//     that were handed over and every later Read must return them byte for byte (store.DiffPlans compares Go strings with
+//     ==, no UTF-8 normalisation): rules read-after-update:attempt.err / read-after-update:attempt.resp.
+
 import (
 	"context"
 	"fmt"
@@ -64,6 +82,9 @@ type Program struct {
 
 const c13MaxPlans = 4
 
+// c13BadUTF8Percent: share of the generated updates of actions that carry an attempt string with invalid UTF-8.
+const c13BadUTF8Percent = 3
+
 // genArm draws the vault arm. $VERIF_STORE_ARM pins it (debugging aid for focused runs; never set by the driver).
 func genArm(t *rapid.T) string {
 	if a := os.Getenv("VERIF_STORE_ARM"); a != "" {
@@ -100,6 +121,9 @@ func genProgram(t *rapid.T) Program {
 	// program length <= 40 operations, skewed towards short programs (many small cases beat few large ones); the
 	// cosmos fake re-writes every document of a plan on each patch operation, so its programs are kept shorter
 	maxPlans, cfg := c13MaxPlans, store.DefaultCfg
+	// rare class "attempt strings with invalid UTF-8": c13BadUTF8Percent of the updates of actions (all arms), see the
+	// two-outcome oracle in checkProgram
+	cfg.BadUTF8Percent = c13BadUTF8Percent
 	maxOps := rapid.SampledFrom([]int{6, 12, 12, 24, 40}).Draw(t, "maxops")
 	if p.Arm == store.ArmCosmosFake {
 		maxPlans, cfg.MaxBlocks = 2, 2
@@ -156,7 +180,7 @@ func genProgram(t *rapid.T) Program {
 			s := live[rapid.IntRange(0, len(live)-1).Draw(t, "slot")]
 			tgs := store.Targets(*slots[s].spec)
 			tg := tgs[rapid.IntRange(0, len(tgs)-1).Draw(t, "target")]
-			u := store.GenUpdate(t, "upd", slots[s].spec, tg)
+			u := cfg.Update(t, "upd", slots[s].spec, tg)
 			p.Ops = append(p.Ops, Op{Kind: kind, Slot: s, Target: &tg, Update: &u, Fresh: rapid.Bool().Draw(t, "fresh")})
 		case "delete":
 			s := live[rapid.IntRange(0, len(live)-1).Draw(t, "slot")]
@@ -392,6 +416,12 @@ func checkProgram(c Program) (res vprop.Result) {
 					if guard(&res, "C13", arm, fmt.Sprintf("Update(%s) after Create at step %d", tg, i), func() { uerr = callUpdate(ctx, h.Vault, obj) }) {
 						return res
 					}
+					if uerr != nil && tg.Kind == "action" && u.HasBadUTF8(plugin) {
+						// never generated (Plan draws no invalid UTF-8); a hand-written case gets the same two-outcome reading
+						sl.live = nil
+						mark("invalid_utf8_update:refused")
+						break
+					}
 					if uerr != nil {
 						r.fail("update-error:"+tg.Kind, "step %d: Update of %s of a stored plan failed: %v", i, tg, uerr)
 						return res
@@ -434,19 +464,36 @@ func checkProgram(c Program) (res vprop.Result) {
 			if a := store.ResolveActionSpec(&s.pm.Spec, *op.Target); a != nil {
 				plugin = a.Plugin
 			}
+			badUTF8 := op.Target.Kind == "action" && op.Update.HasBadUTF8(plugin)
 			op.Update.ApplyTo(obj, plugin)
 			var uerr error
 			if guard(&res, "C13", arm, fmt.Sprintf("Update(%s) at step %d", op.Target, i), func() { uerr = callUpdate(ctx, h.Vault, obj) }) {
 				return res
 			}
+			if uerr != nil && badUTF8 {
+				// Outcome 1 of the rare class (see the file comment): the vault refused the attempt string that is not valid
+				// UTF-8. Nothing was written: the model keeps what was last written and the read below still compares the
+				// whole plan with it. The retained tree carries the refused attempts: drop it.
+				s.live = nil
+				mark("invalid_utf8_update:refused")
+				vprop.Count("invalid_utf8_updates_refused:"+arm, 1)
+				classifyBadUTF8(op, plugin, mark)
+				break
+			}
 			if uerr != nil {
 				r.fail("update-error:"+op.Target.Kind, "step %d: Update of %s of a stored plan failed: %v", i, op.Target, uerr)
 				return res
 			}
+			// Outcome 2 of the rare class is the ordinary path: acknowledged = written, exactly as given.
 			s.pm.Apply(*op.Target, *op.Update)
 			vprop.Count("updates:"+arm, 1)
 			mark("upd:" + op.Target.Kind)
 			classifyUpdate(op, mark)
+			if badUTF8 {
+				mark("invalid_utf8_update:stored")
+				vprop.Count("invalid_utf8_updates_stored:"+arm, 1)
+				classifyBadUTF8(op, plugin, mark)
+			}
 		case "delete":
 			s := r.slots[op.Slot]
 			if s == nil || s.pm.Deleted {
@@ -620,6 +667,22 @@ func classifyUpdate(op Op, mark func(string)) {
 			mark("upd_typed_resp")
 		} else {
 			mark("upd_nil_resp")
+		}
+	}
+}
+
+// classifyBadUTF8 labels where the invalid bytes of an update of the rare class are.
+func classifyBadUTF8(op Op, plugin int, mark func(string)) {
+	mark("invalid_utf8_update") // the class whatever its outcome (the floors are on this label, not on an outcome)
+	for _, at := range op.Update.Attempts {
+		kind, place := at.BadPlace(plugin)
+		if kind == store.BadUTF8None {
+			continue
+		}
+		if place <= store.BadAtErr2 {
+			mark(fmt.Sprintf("invalid_utf8_at:err_depth%d", place))
+		} else {
+			mark("invalid_utf8_at:resp")
 		}
 	}
 }
